@@ -556,5 +556,208 @@ fn main() {
         });
         let d = files.lock().unwrap().len() as u64;
         ctx.add_distinct(d, d);
+
+        // (5) large headers: 127 / 128 / 129 / 140 / 300 INFO+FILTER+FORMAT ids or contigs, with and
+        // without explicit (natural, permuted) IDX: header round trip + the records of the family as text
+        ctx.rule(
+            "large headers: zone {INFO, FILTER, FORMAT, contig} x entries {127,128,129,140,300} x IDX {implicit, natural, \
+             permuted} x fileformat {4.3,4.4}: parse(write(h)) == h, fixed point, and every record of gvcf::bigdict \
+             (keys / filters / contigs at dictionary indices 1,126..129,last) through the per-line check",
+        );
+        let big = gvcf::bigdict::cases(&[(4, 3), (4, 4)]);
+        let big_headers: Vec<vcf::Header> = big.iter().map(|c| c.hdr.build().expect("big header builds")).collect();
+        // case = (header index, None = the header itself | Some(record index))
+        let big_cases: Vec<(usize, Option<usize>)> = big
+            .iter()
+            .enumerate()
+            .flat_map(|(e, c)| std::iter::once((e, None)).chain((0..c.recs.len()).map(move |r| (e, Some(r)))))
+            .collect();
+        ctx.sweep(
+            "large_headers",
+            big_cases.len() as u64,
+            |i| {
+                let (e, r) = big_cases[i as usize];
+                match r {
+                    None => format!("header=gvcf::bigdict::big_header({})", big[e].name),
+                    Some(r) => format!("header=gvcf::bigdict::big_header({}) record {} = {}", big[e].name, big[e].recs[r].0, big[e].recs[r].1.show()),
+                }
+            },
+            |i| {
+                let (e, r) = big_cases[i as usize];
+                let header = &big_headers[e];
+                match r {
+                    None => {
+                        let text = io::vcf_write_header(header)
+                            .map_err(|f| fail_violation("write-header", &f, String::new(), "Ok"))?;
+                        let back = io::vcf_read_header(&text)
+                            .map_err(|f| fail_violation("read-header", &f, String::new(), "the writer's own output parses"))?;
+                        if let Some((section, detail)) = big[e].hdr.diff(&Hdr::from_header(&back)) {
+                            return Err(Violation::new(
+                                format!("family=large-header stage=read-header symptom=value-differs section={section}"),
+                                String::new(),
+                                "parse(write(h)) == h",
+                                detail.chars().take(400).collect::<String>(),
+                            ));
+                        }
+                        if back != *header {
+                            return Err(Violation::new("family=large-header stage=read-header symptom=value-differs section=non-public-state", String::new(), "==", "!="));
+                        }
+                        match io::vcf_write_header(&back) {
+                            Ok(t2) if t2 == text => Ok(()),
+                            _ => Err(Violation::new("family=large-header stage=fixed-point-header symptom=text-differs", String::new(), "same bytes", "different")),
+                        }
+                    }
+                    Some(r) => {
+                        let (label, rec) = &big[e].recs[r];
+                        let dec = || format!("record {label}");
+                        let line = io::vcf_write_record(header, &rec.to_record_buf())
+                            .map_err(|f| fail_violation("write", &f, dec(), "Ok (the record is valid)"))?;
+                        let shape_of = |_: &str| "large-dictionary";
+                        check_line(None, header, big[e].hdr.ff, &line, Some((rec, &Expect::Exact)), &shape_of, &dec).map(|_| ())
+                    }
+                }
+            },
+        );
+        ctx.add_distinct(big_cases.len() as u64, big_cases.len() as u64);
+
+        // (6) one writer instance: accepted, REJECTED, accepted — the text must hold exactly the accepted
+        // records (a rejected record must leave nothing behind)
+        ctx.rule(
+            "one VCF writer instance: [a, R, b], [R, a], [a, R] for every rejection reason R of the text writer (reserved \
+             integers in INFO / FORMAT scalars and vectors, invalid INFO / FORMAT key, GT not first, invalid ID / ALT / \
+             FILTER / CHROM / REF base) x accepted records a, b in {full, empty, no-info, format-gt-only} x fileformat \
+             {4.3, 4.5}; the file read back holds exactly the accepted records",
+        );
+        let op_ffs = [1usize, 3];
+        let acc_names = ["full", "empty", "no-info", "format-gt-only"];
+        let rej: Vec<Vec<(String, Rec)>> = op_ffs.iter().map(|&fi| gvcf::multi::rejects(FILE_FORMATS[fi], false)).collect();
+        let acc: Vec<Vec<(String, Rec)>> = op_ffs
+            .iter()
+            .map(|&fi| sets[fi].iter().filter(|(n, _)| acc_names.contains(&n.as_str())).cloned().collect())
+            .collect();
+        let mut op_cases: Vec<(usize, usize, usize)> = Vec::new();
+        for f in 0..op_ffs.len() {
+            for r in 0..rej[f].len() {
+                for shape in 0..24 {
+                    op_cases.push((f, r, shape));
+                }
+            }
+        }
+        let not_rejected = std::sync::Mutex::new(std::collections::BTreeSet::new());
+        let seq_of = |f: usize, r: usize, shape: usize| -> Vec<(bool, &(String, Rec))> {
+            let rr = &rej[f][r];
+            match shape {
+                0..=15 => vec![(true, &acc[f][shape / 4]), (false, rr), (true, &acc[f][shape % 4])],
+                16..=19 => vec![(false, rr), (true, &acc[f][shape - 16])],
+                _ => vec![(true, &acc[f][shape - 20]), (false, rr)],
+            }
+        };
+        ctx.sweep(
+            "vcf_writer_reject_sequences",
+            op_cases.len() as u64,
+            |i| {
+                let (f, r, shape) = op_cases[i as usize];
+                let seq = seq_of(f, r, shape);
+                format!(
+                    "fileformat={:?} header=gvcf::gen_::rich_header(ff,2 samples) one vcf::io::Writer: {}",
+                    FILE_FORMATS[op_ffs[f]],
+                    seq.iter().map(|(a, x)| format!("{}{} {}", if *a { "accept " } else { "REJECT " }, x.0, x.1.show())).collect::<Vec<_>>().join(" ; ")
+                )
+            },
+            |i| {
+                let (f, r, shape) = op_cases[i as usize];
+                let seq = seq_of(f, r, shape);
+                let reason = rej[f][r].0.as_str();
+                let header = &headers[op_ffs[f]];
+                let rbs: Vec<_> = seq.iter().map(|(_, x)| x.1.to_record_buf()).collect();
+                let (bytes, res) = match io::vcf_write_ops(header, &rbs) {
+                    Ok(x) => x,
+                    Err(fl) => return Err(fail_violation("ops-write", &fl, String::new(), "Ok or Err per record")),
+                };
+                let mut exp: Vec<&Rec> = Vec::new();
+                for ((is_acc, x), rs) in seq.iter().zip(&res) {
+                    match (is_acc, rs) {
+                        (true, Ok(())) => exp.push(&x.1),
+                        (true, Err(e)) => {
+                            return Err(Violation::new(
+                                format!("stage=ops-write symptom=valid-record-rejected after=reject:{reason}"),
+                                String::new(),
+                                "Ok (the same record is accepted by a fresh writer)",
+                                e.clone(),
+                            ));
+                        }
+                        (false, Err(_)) => {}
+                        (false, Ok(())) => {
+                            not_rejected.lock().unwrap().insert(reason.to_string());
+                            return Ok(());
+                        }
+                    }
+                }
+                let text = || {
+                    let t = String::from_utf8_lossy(&bytes);
+                    t.lines().filter(|l| !l.starts_with("##")).collect::<Vec<_>>().join("\n")
+                };
+                // independent byte oracle: header + the accepted records, each written by a fresh writer
+                let mut want = match io::vcf_write_header(header) {
+                    Ok(b) => b,
+                    Err(fl) => return Err(fail_violation("ops-write", &fl, String::new(), "Ok")),
+                };
+                for e in &exp {
+                    match io::vcf_write_record(header, &e.to_record_buf()) {
+                        Ok(l) => want.extend_from_slice(&l),
+                        Err(fl) => return Err(fail_violation("ops-write", &fl, String::new(), "Ok")),
+                    }
+                }
+                if bytes != want {
+                    return Err(Violation::new(
+                        format!("stage=ops-write symptom=rejected-record-left-bytes reject={reason}"),
+                        String::new(),
+                        "the output holds exactly the accepted records (a write that returns Err leaves nothing behind)",
+                        format!("file records: {}", text()),
+                    ));
+                }
+                for api in [0usize, 2, 3] {
+                    let api_name = io::READ_APIS[api];
+                    let got = match io::vcf_read_file(&bytes, api, exp.len()) {
+                        Ok(g) => g,
+                        Err(fl) => {
+                            return Err(Violation::new(
+                                format!("stage=ops-read api={api_name} symptom=unreadable-after-reject reject={reason}"),
+                                String::new(),
+                                "exactly the accepted records (a rejected record leaves nothing behind)",
+                                format!("{} ; file records: {}", fl.text(), text()),
+                            ));
+                        }
+                    };
+                    if got.len() != exp.len() {
+                        return Err(Violation::new(
+                            format!("stage=ops-read api={api_name} symptom=record-count reject={reason}"),
+                            String::new(),
+                            format!("{} records", exp.len()),
+                            format!("{} ; file records: {}", got.len(), text()),
+                        ));
+                    }
+                    for (k, (e, g)) in exp.iter().zip(&got).enumerate() {
+                        if let Some(d) = diff_rec(e, g, FloatMode::NanEq) {
+                            return Err(Violation::new(
+                                format!("stage=ops-read api={api_name} reject={reason} {}", d.fp()),
+                                String::new(),
+                                format!("accepted record {k} == what was written"),
+                                format!("{} ; file records: {}", d.detail, text()),
+                            ));
+                        }
+                    }
+                }
+                Ok(())
+            },
+        );
+        ctx.add_distinct(op_cases.len() as u64, op_cases.len() as u64);
+        ctx.extra(
+            "writer_reject_sequences_reasons",
+            vmc::json!({
+                "rejected": rej[0].iter().map(|x| x.0.clone()).filter(|n| !not_rejected.lock().unwrap().contains(n)).collect::<Vec<_>>(),
+                "accepted_by_this_writer_not_judged": not_rejected.lock().unwrap().iter().cloned().collect::<Vec<_>>(),
+            }),
+        );
     });
 }
